@@ -334,3 +334,35 @@ def for_any(E, st, args, kw):
 
 
 
+
+
+# list comprehension over an opaque iterable: the element expression is evaluated once for an arbitrary element (its exceptions propagate);
+# the result is an arbitrary new list (nothing is claimed about its contents)
+_prev_listcomp = R.specs.get("syntax.listcomp")
+
+
+@R.spec("syntax.listcomp", doc="[e for x in <opaque iterable>]: e evaluated for an arbitrary element (may raise what e raises, or what iterating raises); "
+                               "result: an arbitrary new list")
+def opaque_listcomp(E, st, args, kw):
+    import ast as _ast
+    node, module = args
+    if isinstance(node, _ast.ListComp) and len(node.generators) == 1 and not node.generators[0].ifs:
+        gen = node.generators[0]
+        rs = E.ev(gen.iter, st, module)
+        if len(rs) == 1 and rs[0].exc is None and isinstance(rs[0].val, VOpaque):
+            st = rs[0].st
+            out = [may_raise(E, st, "iter")]
+            saved = dict(st.env)
+            s_elem = st.fork()
+            for ao in E.assign(gen.target, VOpaque(fresh("elem", U)), s_elem):
+                if ao.kind != "next":
+                    raise Unsupported("comprehension target")
+                for r in E.ev(node.elt, ao.st, module):
+                    if r.exc is not None:
+                        r.st.env = dict(saved)
+                        out.append(r)
+            out.insert(0, Res(st, VOpaque(fresh("listcomp_result", U))))
+            return out
+    if _prev_listcomp is None:
+        raise Unsupported("list comprehension at line %d" % node.lineno)
+    return _prev_listcomp(E, st, args, kw)
